@@ -174,11 +174,13 @@ TNote ==
     /\ TraceLog[l].e = "Unrelated"
     /\ UNCHANGED <<st, ref, solvedOk, calOk, refOk>>
 
-(* everything was freed: no allocation made inside the library is live *)
+(* end of an episode.  The number of allocations made inside the library  *)
+(* that are still live after vnacal_free (field live) bears on C03 only   *)
+(* and is judged by the runner, so that a leak does not hide what the     *)
+(* episode says about C01 / C17 / C20.                                    *)
 TEnd ==
     LET ev == TraceLog[l]
     IN /\ ev.e = "End"
-       /\ Explain(ev.live = 0, <<l, "End", "live", 0>>)
        /\ st' = NoState /\ ref' = NoState /\ solvedOk' = FALSE /\ calOk' = FALSE /\ refOk' = FALSE
 
 TNext ==
